@@ -1197,14 +1197,23 @@ def main(run):
                 "with recording operators: exhaustive small grid (ngen 0..2 x population 0..3 x extreme probabilities) plus seeded random "
                 "configurations with ngen 0..4, population 0..5, partly pre-evaluated individuals, cxpb/mutpb in {0,.25,.5,.75,1}, mu<=lambda, "
                 "scripted and real operators (cxTwoPoint/mutFlipBit/selTournament/selBest; GP trees with cxOnePoint/mutUniform for harm). "
+                "every single-leg eaSimple / eaMuPlusLambda / eaMuCommaLambda run is replayed twice: by the loop model on the observed "
+                "variation results (Corr/C03.v) and by the composed model on the recorded draws and operator script (Corr/C03_Full.v), plus "
+                "runs that leave with the exceptions of varOr's guards; "
                 "distinct = different configuration; non-trivial = at least one generation executed on a non-empty population")
     run.trusted += ["Coq 8.16.1 kernel and vm_compute",
                     "hand-written model coq/Model/C03_Loops.v tied by correspondence (harness/c03.py, coq/Corr/C03.v)",
                     "recording wrappers of harness/c03.py (uid registry, len()/random()/sorted() hooks in deap.gp, varAnd/varOr wrappers)",
                     "fitness values restricted to integer-valued floats (order-isomorphic to Z)",
-                    "CPython semantics of slice assignment, zip, map, list.sort stability"]
+                    "CPython semantics of slice assignment, zip, map, list.sort stability",
+                    "composed model coq/Model/C03_Full.v (loops over C02's heap calling var_and / var_or) tied by correspondence "
+                    "(coq/Corr/C03_Full.v): proxy for the name `random` of deap.algorithms (random() bit exact, sample / choice by "
+                    "position), toolbox.clone / mate / mutate wrappers numbering objects in allocation order and recording the operator script"]
     run.assumptions += ["evaluate is a function of the genotype", "select returns k elements of its argument",
-                        "variation satisfies the C02 contract (offspring valid => copy of a parent; invalid offspring are distinct new objects)",
+                        "Props/C03.v: variation satisfies the C02 contract (offspring valid => copy of a parent; invalid offspring are "
+                        "distinct new objects); Props/C03_full.v: no such hypothesis (derived from C02's theorems), instead mate / mutate stay "
+                        "inside C02's frame (write only to their arguments, return arguments or new objects), mate returns two different "
+                        "objects (eaSimple), members of the initial population own their Fitness objects",
                         "initially invalid individuals are distinct objects; pre-set fitnesses are truthful",
                         "harm: acceptance loop terminates; mate returns two distinct objects"]
     run.build_props()
